@@ -199,7 +199,9 @@ Relogon(s) == Emit(Ev([s EXCEPT !.st = "WLA"], "request?"), [Msg("A", 0) EXCEPT 
 AppType == "V"   \* the harness sends a MarketDataRequest as its application message
 AppSend(s) == Emit(s, Msg(AppType, 0))
 
-LocalLogout(s) == Emit(Ev([s EXCEPT !.st = "WLO", !.timers = FALSE], "request"), Msg("5", 0))
+\* (no timer obligation exists while the answer is awaited: HeartbeatEnabled / TestReqEnabled need a logged-on state;
+\*  what a still-running timer might send in that state is tolerated by SessionTrace!StaleTimers, by name)
+LocalLogout(s) == Emit(Ev([s EXCEPT !.st = "WLO"], "request"), Msg("5", 0))
 
 \* (a second Stop does not postpone the first one's deadline)
 Stop(s) == IF s.cfg.closeMs = 0 THEN [LocalLogout(s) EXCEPT !.ctxDone = TRUE, !.ctxAt = s.now]
